@@ -182,11 +182,17 @@ def pyfftw_call(array_in, array_out, direction='forward', axes=None,
         [planning_effort], direction, halfcomplex, array_in.ndim)
     must_copy_array_in = fftw_plan_in is None and planner_destroys
 
-    if must_copy_array_in and not array_in_copied:
+    if must_copy_array_in:
+        # The planner overwrites the arrays it is given, so the plan is
+        # made with a scratch array instead of the one holding the data
+        # (also if the latter is our own complex copy of real input). For
+        # an in-place transform, this applies to the output array as well.
         plan_arr_in = np.empty_like(array_in)
+        plan_arr_out = plan_arr_in if array_out is array_in else array_out
         flags = [_flag_odl_to_pyfftw(planning_effort), 'FFTW_DESTROY_INPUT']
     else:
         plan_arr_in = array_in
+        plan_arr_out = array_out
         flags = [_flag_odl_to_pyfftw(planning_effort)]
 
     if fftw_plan_in is None:
@@ -197,7 +203,8 @@ def pyfftw_call(array_in, array_out, direction='forward', axes=None,
                 threads = cpu_count()
 
         fftw_plan = pyfftw.FFTW(
-            plan_arr_in, array_out, direction=_flag_odl_to_pyfftw(direction),
+            plan_arr_in, plan_arr_out,
+            direction=_flag_odl_to_pyfftw(direction),
             flags=flags, planning_timelimit=planning_timelimit,
             threads=threads, axes=axes)
     else:
